@@ -116,7 +116,10 @@ struct AllocCounters
   uint64_t mallocs = 0;
   uint64_t mmaps = 0;
 };
-AllocCounters alloc_counters(); // of the calling simulated thread
+AllocCounters alloc_counters();
+// the first value the (virtual) wall clock returns to the calling thread after mark_clock_read(); 0 if it was not read
+void mark_clock_read();
+uint64_t first_clock_read(); // of the calling simulated thread
 void count_alloc(bool is_mmap);
 
 // fwrite fault (C10 F3): the next `n` fwrite calls made by simulated thread `thread` on `stream`
